@@ -154,7 +154,11 @@ func (action actionCommit) handleSingleBatch(c *twoPhaseCommitter, bo *retry.Bac
 				// it means the transaction's commit state is unknown.
 				// We should return the error `ErrResultUndetermined` to the caller
 				// to do the further handling (.i.e disconnect the connection).
-				return errors.WithStack(tikverr.ErrResultUndetermined)
+				// Record it as well, so that the locks are not rolled back while the
+				// primary key may have been committed.
+				err = errors.WithStack(tikverr.ErrResultUndetermined)
+				c.setUndeterminedErr(err)
+				return err
 			}
 
 			if err = retry.MayBackoffForRegionError(regionErr, bo); err != nil {
